@@ -106,6 +106,25 @@ pub fn run_c10<K: KeyT, V: ValT>(spec: &RunSpec, thorough: bool) -> RunOutcome {
         kinds.push(Op::ShrinkTo { m, n: *a });
     }
     kinds.push(Op::ShrinkToFit { m });
+    // the same contracts on HashSet (its capacity-management methods are separate wrappers)
+    if !w.sets.is_empty() {
+        for a in &args {
+            let huge_or_oom = !matches!(a, Arg::Abs(_) | Arg::Free(_) | Arg::Len(_) | Arg::Cap(_) | Arg::TwoCap);
+            // every third boundary argument is enough here: the arithmetic is shared with the map
+            if huge_or_oom && !matches!(a, Arg::NearMax(d) if *d % 3 == 0) && !matches!(a, Arg::NearIsize(d) | Arg::NearElemMax(d) if *d % 7 == 0) {
+                continue;
+            }
+            if !matches!(a, Arg::OomHuge(_)) {
+                kinds.push(Op::SReserve { s: 0, n: *a });
+            }
+            kinds.push(Op::STryReserve { s: 0, n: *a, oom: false });
+            if !huge_or_oom {
+                kinds.push(Op::STryReserve { s: 0, n: *a, oom: true });
+            }
+            kinds.push(Op::SShrinkTo { s: 0, n: *a });
+        }
+        kinds.push(Op::SShrinkToFit { s: 0 });
+    }
     if K::CLASS != ElemClass::Zst {
         for c in [0usize, 1, 2, 3, 4, 7, 8, 14, 15, 28, 29, 100, 1000] {
             kinds.push(Op::WithCapacity { m, n: c });
@@ -129,8 +148,9 @@ pub fn run_c10<K: KeyT, V: ValT>(spec: &RunSpec, thorough: bool) -> RunOutcome {
                 None => return out,
             };
         }
-        let before = w.maps[0].m.verif_state();
-        let (cap_b, len_b) = (w.maps[0].m.capacity(), w.maps[0].m.len());
+        let is_set = op.kind().starts_with("set_");
+        let before = if is_set { w.sets[0].s.verif_state() } else { w.maps[0].m.verif_state() };
+        let (cap_b, len_b) = if is_set { (w.sets[0].s.capacity(), w.sets[0].s.len()) } else { (w.maps[0].m.capacity(), w.maps[0].m.len()) };
         let so = w.exec(n, op, None, false);
         out.steps += 1;
         out.op_kinds.push(op.kind());
@@ -138,7 +158,7 @@ pub fn run_c10<K: KeyT, V: ValT>(spec: &RunSpec, thorough: bool) -> RunOutcome {
             *out.faults.entry("alloc-failure".to_string()).or_insert(0) += so.oom_fired;
         }
         let a_cls = match op {
-            Op::Reserve { n, .. } | Op::TryReserve { n, .. } | Op::ShrinkTo { n, .. } => arg_class(n),
+            Op::Reserve { n, .. } | Op::TryReserve { n, .. } | Op::ShrinkTo { n, .. } | Op::SReserve { n, .. } | Op::STryReserve { n, .. } | Op::SShrinkTo { n, .. } => arg_class(n),
             _ => 0,
         };
         if matches!(op, Op::Reserve { n, .. } | Op::TryReserve { n, .. } if arg_class(n) >= 10 && arg_class(n) <= 14) {
@@ -156,9 +176,9 @@ pub fn run_c10<K: KeyT, V: ValT>(spec: &RunSpec, thorough: bool) -> RunOutcome {
             anomalies.extend(w.check_contents(n, op.kind(), family_of(op), true));
             // every outcome is followed by the fill probe (reserve: the next n keys go in without
             // reallocation; shrink and failed calls: headroom still intact)
-            let probe = Op::Probe { m, max: 5000 };
-            let after = w.maps[0].m.verif_state();
-            let unchanged = after == before && w.maps[0].m.capacity() == cap_b && w.maps[0].m.len() == len_b;
+            let probe = if is_set { Op::SProbe { s: 0, max: 5000 } } else { Op::Probe { m, max: 5000 } };
+            let (after, cap_a, len_a) = if is_set { (w.sets[0].s.verif_state(), w.sets[0].s.capacity(), w.sets[0].s.len()) } else { (w.maps[0].m.verif_state(), w.maps[0].m.capacity(), w.maps[0].m.len()) };
+            let unchanged = after == before && cap_a == cap_b && len_a == len_b;
             let failed = so.res.starts_with("Err") || so.res.starts_with("panic") || so.res == "skipped";
             if unchanged && failed {
                 // nothing happened: the same state serves the next argument
